@@ -151,6 +151,14 @@ def _canon_bca_fcf(app, fam, rev, rng):
 LENGTHS = [0x38, 0x39, 0x3A, 0x3B, 0x3C, 0x3D, 0x3E, 0x3F, 0x40, 0x41, 0x48, 0x50, 0x1FF, 0x200, 0x201]
 
 
+def force_reloc(rng, c):
+    """a relocation table of 1-4 entries (zero-length entries, unaligned sizes) for the case `c`"""
+    n = rng.choice([1, 1, 2, 3, 4])
+    # distinct destination addresses (create_config names the extracted images after them)
+    dsts = rng.sample([0, 0x20001000, 0xFFFFFFFF, rng.getrandbits(32), rng.getrandbits(32), rng.getrandbits(31), 4 * rng.getrandbits(20)], n)
+    c["reloc"] = [[bytes(rng.getrandbits(8) for _ in range(rng.choice([0, 1, 3, 4, 5, 16, 17, rng.randrange(1, 300)]))).hex(), d] for d in dsts]
+
+
 def gen_case(rng, row, draw, thorough=False):
     fam, rev, tgt, auth, cn, itype, mixins, tzs, fixed = row
     c = {"family": fam, "rev": rev, "target": tgt, "auth": auth, "cls": cn}
@@ -204,11 +212,9 @@ def gen_case(rng, row, draw, thorough=False):
     if _has(mixins, "CtrInitVector"):
         c["iv"] = rng.choice([bytes(rng.getrandbits(8) for _ in range(16)), bytes(rng.getrandbits(8) for _ in range(12)) + b"\xff\xff\xff\xff",
                               b"\xff" * 16, bytes(15) + b"\x01"]).hex()
-    if _has(mixins, "RelocTable") and rng.random() < 0.6:
-        n = rng.choice([1, 1, 2, 3, 4])
-        # distinct destination addresses (create_config names the extracted images after them)
-        dsts = rng.sample([0, 0x20001000, 0xFFFFFFFF, rng.getrandbits(32), rng.getrandbits(32), rng.getrandbits(31), 4 * rng.getrandbits(20)], n)
-        c["reloc"] = [[bytes(rng.getrandbits(8) for _ in range(rng.choice([0, 1, 3, 4, 5, 16, 17, rng.randrange(1, 300)]))).hex(), d] for d in dsts]
+    if _has(mixins, "RelocTable") and (rng.random() < 0.6 or (draw == 0 and _has(mixins, "AppTrustZoneCertBlockEncrypt"))):
+        # (encrypted rows: ALWAYS a relocation table on the first draw - post_encrypt's slice bound `image_bytes[HMAC_OFFSET:app_len]`)
+        force_reloc(rng, c)
     if _has(mixins, "CertBlockV1"):
         pool = list(RSA_VARIANTS) if thorough else RSA_QUICK
         c["cert"] = {"kind": "v1", "id": pool[(draw + rng.randrange(len(pool))) % len(pool)]}
